@@ -230,6 +230,9 @@ func joinPath(a, b string) string {
 	if b == "" {
 		return a
 	}
+	if a == "" {
+		return b
+	}
 	if strings.HasPrefix(b, "#") || strings.HasPrefix(b, "[") {
 		return a + b
 	}
